@@ -321,6 +321,8 @@ func vRunRandom(job vRandJob, emit func(vEvent)) {
 	res := "OK"
 	if !same {
 		res = "CFGMUTATED"
+	} else if h.aliased() {
+		res = "CFGALIASED"
 	}
 	end := vEvent{Sid: job.Id, Op: "end", Res: res, Probe: "-"}
 	vNormEvent(&end)
